@@ -175,6 +175,14 @@ func diedInRepo(out string) (what, frame string) {
 	return "", ""
 }
 
+// headTail keeps the beginning (where Go prints what went wrong) and the end of a long output.
+func headTail(s string, h, t int) string {
+	if len(s) <= h+t {
+		return s
+	}
+	return s[:h] + "\n...\n" + s[len(s)-t:]
+}
+
 type shardResult struct {
 	Prop       string                      `json:"prop"`
 	Shard      int                         `json:"shard"`
@@ -318,7 +326,7 @@ func main() {
 						Notes: []string{fmt.Sprintf("shard %d died inside the code under test; what it had explored until then is not counted", i)}}
 					return
 				}
-				errs[i] = fmt.Sprintf("shard %d: %v\n%s", i, err, tail(string(o), 4000))
+				errs[i] = fmt.Sprintf("shard %d: %v\n%s", i, err, headTail(string(o), 1500, 2500))
 				return
 			}
 			b, err := os.ReadFile(out)
